@@ -34,11 +34,19 @@ class FakePool:
         pass
 
 
-def points(n):
+def points(n, noise=0):
     a = np.zeros((n, 2))
     a[:, 0] = np.arange(n, dtype=float) + 0.5
     a[:, 1] = 0.25
-    return numpy_array_to_live_points(a, ["x", "y"])
+    x = numpy_array_to_live_points(a, ["x", "y"])
+    if noise and n:
+        # what the non-parameter fields happen to hold is not an input of the batch interface: fill them with values
+        # that a shortcut would trip over (zero / infinite / NaN prior, stale likelihoods, iteration labels)
+        pat = [-np.inf, 0.0, np.nan, 1.5, np.inf, -np.inf, -3.0]
+        x["logP"] = [pat[(i + noise) % len(pat)] for i in range(n)]
+        x["logL"] = [[7.0 + i, -np.inf, np.nan][(i + noise) % 3] for i in range(n)]
+        x["it"] = np.arange(n) - 1
+    return x
 
 
 def make_func(fvals, kind, calls):
@@ -116,7 +124,7 @@ def run_case(c):
         calls = []
         f = make_func(c["fvals"], c["fkind"], calls)
         pool = FakePool(c["n_pool"]) if c["has_pool"] else None
-        x = points(c["n"])
+        x = points(c["n"], c.get("noise", 0))
         try:
             out = batch_evaluate_function(
                 f, x, c["vectorised"], chunksize=c["chunksize"] or None, pool=pool,
@@ -147,7 +155,7 @@ def run_case(c):
             m.configure_pool(pool=pool)
         elif c["pool"] == "real":
             m.configure_pool(n_pool=c["n_pool"])
-        x = points(c["n"])
+        x = points(c["n"], c.get("noise", 0))
         if c.get("unit") or c["which"] == "prior_uh":
             x = m.to_unit_hypercube(x)
         # settle the vectorisation probe before counting
